@@ -278,6 +278,7 @@ func runC03(c *core.Ctx) {
 
 	// ---- fmt.linecmt
 	checkChunkLineComments(c)
+	checkTextRewrite(c)
 
 	// ---- fmt.inlinecmt
 	checkInlineComments(c)
